@@ -547,7 +547,8 @@ def _view_aliases(scope_nodes):
             if isinstance(n, ast.Assign):
                 for t in n.targets:
                     for x in ast.walk(t):
-                        if isinstance(x, ast.Name):
+                        if isinstance(x, ast.Name) \
+                                and isinstance(x.ctx, ast.Store):
                             count[x.id] = count.get(x.id, 0) + 1
                 if len(n.targets) == 1 and isinstance(n.targets[0], ast.Name) \
                         and isinstance(n.value, (ast.Subscript,
@@ -690,14 +691,31 @@ def rule_v2(ctx):
     # --- add_edges
     f = need("add_edges")
     arms = []
+    elist_ifs = 0
     for n in ast.walk(f.node):
-        if isinstance(n, ast.If) and eval_test(n.test, {"elist": True}) is True \
-                and eval_test(n.test, {"elist": False}) is False:
+        if not isinstance(n, ast.If):
+            continue
+        t1 = eval_test(n.test, {"elist": True})
+        t0 = eval_test(n.test, {"elist": False})
+        if t1 is True and t0 is False:
             arms.append(("elist=True", n.body))
             arms.append(("elist=False", n.orelse))
+            elist_ifs += 1
+        elif t1 is False and t0 is True:
+            arms.append(("elist=True", n.orelse))
+            arms.append(("elist=False", n.body))
+            elist_ifs += 1
+    if len(arms) != 2 and elist_ifs:
+        raise AnalysisError("FSA.add_edges: the dispatch on `elist` has an "
+                            "unrecognised form")
     if len(arms) != 2:
-        raise AnalysisError("FSA.add_edges: the `if elist:` dispatch with two "
-                            "arms was not found")
+        # one merged update path (`labels = label if elist else [label]`):
+        # the edge loop's body is the single arm
+        loops = [n for n in f.node.body if isinstance(n, ast.For)]
+        if not loops:
+            raise AnalysisError("FSA.add_edges: neither the `if elist:` "
+                                "dispatch nor the edge loop was found")
+        arms = [("merged", loops[0].body)]
     loopvars = None
     for n in ast.walk(f.node):
         if isinstance(n, ast.Assign) and isinstance(n.targets[0], ast.Tuple) \
@@ -708,6 +726,10 @@ def rule_v2(ctx):
     tail, head, label = loopvars
     for armname, body in arms:
         w = _writes_in(body, scope=f.node.body)
+        if armname == "merged":
+            # cell creation (`= []`) is checked separately below
+            w = [x for x in w if not (x[2] == "assign" and x[3] in (
+                "[]", "list()", "{}"))]
         byview = {}
         for x in w:
             byview.setdefault(x[0], []).append(x)
